@@ -699,7 +699,10 @@ def cmp_c13(case, i, m):
         return ("list-values", f"list values {case['listvals']} were not matched verbatim: reported nodes {[r['focus'] for r in rs]} (expected only n/1)")
     if rs[0]["shape"] != m["shape"]:
         return ("shape", f"sourceShapeName {rs[0]['shape']!r} instead of {m['shape']!r}")
-    if rs[0]["message"] != m["message"]:
+    if case.get("customMessage"):
+        if rs[0]["message"] != case["customMessage"]:
+            return ("custom-message", f"an embedded-Rego alternative of the failure branch sets $message to {case['customMessage']!r}, but the result says {rs[0]['message']!r}")
+    elif rs[0]["message"] != m["message"]:
         return ("message", f"message template {case['message']!r} rendered as {rs[0]['message']!r}, expected {m['message']!r}")
     # then the unit-level ties of the model
     if i.get("quoted") != m.get("quoted"):
